@@ -2421,6 +2421,20 @@ func simplify(t Term) Term {
 				}
 			}
 		}
+		// x == true, x != false are x; x == false, x != true are !x
+		if v.Op == token.EQL || v.Op == token.NEQ {
+			for _, pair := range [][2]Term{{v.X, v.Y}, {v.Y, v.X}} {
+				if k, ok := pair[1].(TConst); ok && k.Val.Kind() == constant.Bool {
+					if _, both := pair[0].(TConst); both {
+						break
+					}
+					if constant.BoolVal(k.Val) == (v.Op == token.EQL) {
+						return pair[0]
+					}
+					return simplify(TUn{token.NOT, pair[0]})
+				}
+			}
+		}
 		// nil comparisons that are decided: nil == nil; a freshly constructed error is never nil
 		if v.Op == token.EQL || v.Op == token.NEQ {
 			_, xn := v.X.(TNil)
